@@ -10,6 +10,7 @@ mod fg;
 mod mutate;
 mod props;
 mod refbp;
+mod sched;
 
 use engine::{Report, Tier};
 
@@ -58,6 +59,14 @@ fn main() {
             rep.replay_filter = Some(key);
             props::run(&id, &mut rep);
             std::process::exit(rep.finish());
+        },
+        "child" => {
+            let code = match args[2].as_str() {
+                "sched" => sched::child_main(&args[3..]),
+                "hist" => props::c18::child_hist(&args[3..]),
+                _ => 2,
+            };
+            std::process::exit(code);
         },
         _ => usage(),
     }
